@@ -5,6 +5,7 @@ import (
 	"fmt"
 	"math/rand"
 	"sort"
+	"strings"
 
 	u "github.com/utreexo/utreexo"
 
@@ -473,6 +474,28 @@ func lcCheck(c *core.Ctx, s lcScenario, judgeUndo bool) {
 				}
 			}
 			if cl, detail := checkCached(f, hashes, proof, exp); cl != "" {
+				if cl == "lost-leaf" && len(rec.UD.ToDestroy) > 0 {
+					// Recorded finding D6 is identified narrowly: every lost leaf must sit, in the
+					// forest AFTER the block, in a tree that contains one of the overwritten
+					// empty-root positions (that is the set Proof.undoAdd throws away).  A leaf
+					// lost from any other tree is a different violation.
+					fa := rec.After.Forest()
+					hit := map[int]bool{}
+					for _, d := range rec.UD.ToDestroy {
+						if ti := fa.TreeOf(d); ti >= 0 {
+							hit[ti] = true
+						}
+					}
+					for h := range exp {
+						if got[h] {
+							continue
+						}
+						if pos, ok := fa.LeafPos[h]; !ok || !hit[fa.Nodes[pos].Tree] {
+							trig = joinTrig("toDestroy>0,lost-leaf-outside-the-overwritten-trees", strings.TrimPrefix(trig, "toDestroy>0"))
+							break
+						}
+					}
+				}
 				c.Violate("Proof.Undo", cl, trig, desc+": "+detail)
 				return
 			}
